@@ -5,16 +5,24 @@ Completeness of the builders (converse of R2): vocabulary.
 * `vsize ext x`   — an explicit size of a serde value: one unit per call plus the bytes every scalar can contribute
                     to a data buffer (its `to_string` form for the scalars string builders accept).
 * `room b`        — the head room of a builder state: the minimum, over every capacity-limited counter in the
-                    builder tree, of `limit - current` (last offset of every offsets vector and the length of
-                    every view buffer against `i32::MAX`; number of dictionary values against the key type).
+                    builder tree, of `limit - current` (last offset of every offsets vector, the length of
+                    every view buffer and every per-variant row counter `current_offset[v]` of a union against
+                    `i32::MAX`; number of dictionary values against the key type).
 * `NoCap ext b x` — `vsize ext x ≤ room b`: no capacity check (`increment_last`, view `pack_extern`, dictionary key
-                    conversion) can refuse the value.
+                    conversion, the checked `current_offset[v] + 1` of `UnionBuilder::serialize_variant`) can
+                    refuse the value.
 * `total dt n md` — the schema-level exclusion found while proving completeness: a nullable struct /
                     fixed-size list whose children cannot take `serialize_default` (an `UnknownVariant`
                     placeholder, a union without variants or with placeholder variants only) refuses `None`
                     although the documented mapping says `null`; unions have at most 128 variants (type ids are
                     `i8`).  Since repo fix 837fa53 a union takes `serialize_default` through its first variant
                     that is not a placeholder (`defOKFirst`); before, through variant 0 whatever it was.
+                    Since repo fix fe68100 (checked row counters of unions) a default is one ROW of that variant:
+                    a `None` of a `FixedSizeList(_, m)` (size 1) sends `m` defaults to its child, which would
+                    take `m` units of the head room of a union reachable by defaults below it (through structs /
+                    fixed-size lists) — `defOK` of a fixed-size list of size `m > 1` therefore also requires
+                    `noDefUF` of its child: no union below it receives defaults.  (Unions below lists, maps, dictionaries, or as
+                    variants / struct fields outside nullable fixed-size lists are not restricted.)
 -/
 namespace SaModel.Build
 open SaModel SaModel.Spec
@@ -85,6 +93,67 @@ def keyRoom (idx : B) (n : Nat) : Nat :=
   | .leaf _ (.int t) _ _ => t.max.toNat + 1 - n
   | _ => 0
 
+/-- head room of the per-variant row counters of a union (`current_offset: Vec<i32>`, checked `+ 1` per row) -/
+def curRoom : List Int → Nat
+  | [] => LIM
+  | co :: r => min (LIM - co.toNat) (curRoom r)
+
+theorem curRoom_le_LIM : ∀ (cur : List Int), curRoom cur ≤ LIM
+  | [] => Nat.le_refl _
+  | co :: r => by simp only [curRoom]; have := curRoom_le_LIM r; omega
+
+theorem curRoom_get : ∀ (cur : List Int) (i : Nat) (co : Int), cur[i]? = some co → curRoom cur ≤ LIM - co.toNat
+  | [], i, co, h => by simp at h
+  | c :: r, 0, co, h => by
+    simp only [List.getElem?_cons_zero, Option.some.injEq] at h
+    subst h; simp only [curRoom]; omega
+  | c :: r, i + 1, co, h => by
+    simp only [List.getElem?_cons_succ] at h
+    have := curRoom_get r i co h
+    simp only [curRoom]; omega
+
+/-- a union row may be pushed: the counter of the variant is below `i32::MAX` -/
+theorem curRoom_pos_get {cur : List Int} {i : Nat} {co : Int} (h : cur[i]? = some co) (hr : 1 ≤ curRoom cur) :
+    ¬ (co + 1 > 2147483647) := by
+  have := curRoom_get cur i co h
+  simp only [LIM] at this
+  omega
+
+/-- one row of one variant takes one unit of the counters' head room -/
+theorem curRoom_set : ∀ (cur : List Int) (i : Nat) (co : Int), cur[i]? = some co →
+    curRoom cur ≤ curRoom (cur.set i (co + 1)) + 1
+  | [], i, co, h => by simp at h
+  | c :: r, 0, co, h => by
+    simp only [List.getElem?_cons_zero, Option.some.injEq] at h
+    subst h; simp only [List.set_cons_zero, curRoom]; omega
+  | c :: r, i + 1, co, h => by
+    simp only [List.getElem?_cons_succ] at h
+    have := curRoom_set r i co h
+    simp only [List.set_cons_succ, curRoom]; omega
+
+/-- the row counter and the variant's builder are different counters: a row costs the larger of the two -/
+theorem min_le_min_max {a b a' b' c : Nat} (h1 : b ≤ b' + c) (h2 : a ≤ a' + 1) : min a b ≤ min a' b' + max c 1 := by
+  omega
+
+/-- `k` rows of one variant take `k` units of the counters' head room -/
+theorem curRoom_setK : ∀ (cur : List Int) (i : Nat) (co : Int) (k : Nat), cur[i]? = some co →
+    curRoom cur ≤ curRoom (cur.set i (co + (k : Int))) + k
+  | [], i, co, k, h => by simp at h
+  | c :: r, 0, co, k, h => by
+    simp only [List.getElem?_cons_zero, Option.some.injEq] at h
+    subst h; simp only [List.set_cons_zero, curRoom]; omega
+  | c :: r, i + 1, co, k, h => by
+    simp only [List.getElem?_cons_succ] at h
+    have := curRoom_setK r i co k h
+    simp only [List.set_cons_succ, curRoom]; omega
+
+/-- `k` union rows of one variant may be pushed: the counter stays within `i32` -/
+theorem curRoom_le_get {cur : List Int} {i : Nat} {co : Int} {k : Nat} (h : cur[i]? = some co) (hr : k ≤ curRoom cur)
+    (hk : k ≠ 0) : ¬ (co + (k : Int) > 2147483647) := by
+  have := curRoom_get cur i co h
+  simp only [LIM] at this
+  omega
+
 mutual
 /-- head room: the minimum of `limit - current` over every capacity-limited counter in the builder tree -/
 def room : B → Nat
@@ -99,7 +168,7 @@ def room : B → Nat
   | .map _ _ _ offs ks vs => min (LIM - lastNat offs) (min (room ks) (room vs))
   | .struct _ _ _ fs _ _ _ => roomL fs
   | .dictionary _ idx vals index => min (keyRoom idx index.length) (room vals)
-  | .union _ fs _ _ _ => roomL fs
+  | .union _ fs _ _ cur => min (curRoom cur) (roomL fs)
 def roomL : BL → Nat
   | .nil => LIM
   | .cons b _ r => min (room b) (roomL r)
@@ -121,10 +190,29 @@ def isPlaceholderF : Field → Bool
   | .mk _ dt _ md => isUnknownVariant dt md
 
 mutual
-/-- `serialize_default` is supported by the builder of this type (all of its parts that receive it) -/
+/-- no union receives `serialize_default` when the builder of this type does (`serialize_default` / `serialize_none`
+are forwarded to children by structs and fixed-size lists only; a union takes a default as one ROW of its first real
+variant, which costs one unit of that variant's row counter) -/
+def noDefU : DataType → Bool
+  | .union _ _ => false
+  | .struct fs => noDefUFs fs
+  | .fixedSizeList f _ => noDefUF f
+  | _ => true
+def noDefUF : Field → Bool
+  | .mk _ dt _ _ => noDefU dt
+def noDefUFs : Fields → Bool
+  | .nil => true
+  | .cons f r => noDefUF f && noDefUFs r
+end
+
+mutual
+/-- `serialize_default` is supported by the builder of this type (all of its parts that receive it), at the price of
+at most one unit of head room per call: one default / `None` of a `FixedSizeList(_, m)` sends `m` defaults to the
+child, so no union may be reachable by defaults below a fixed-size list of size `m > 1` (`noDefUF`; repo fix fe68100:
+every default row of a union counts against `i32::MAX` rows of its first real variant) -/
 def defOK : DataType → Metadata → Bool
   | .null, md => !isUnknownVariant .null md
-  | .fixedSizeList f _, _ => defOKF f
+  | .fixedSizeList f m, _ => defOKF f && (decide (m ≤ 1) || noDefUF f)
   | .struct fs, _ => defOKFs fs
   | .union ufs _, _ => decide (UFields.length ufs ≤ 128) && defOKFirst ufs
   | _, _ => true
@@ -146,7 +234,7 @@ unions have at most 128 variants -/
 def total : DataType → Bool → Metadata → Bool
   | .list f, _, _ => totalF f
   | .largeList f, _, _ => totalF f
-  | .fixedSizeList f _, n, _ => totalF f && (!n || defOKF f)
+  | .fixedSizeList f m, n, _ => totalF f && (!n || (defOKF f && (decide (m ≤ 1) || noDefUF f)))
   | .map (.mk _ (.struct (.cons kf (.cons vf _))) _ _) _, _, _ => totalF kf && totalF vf
   | .struct fs, n, _ => totalFs fs && (!n || defOKFs fs)
   | .union ufs _, _, _ => decide (UFields.length ufs ≤ 128) && totalUs ufs
